@@ -500,7 +500,7 @@ var undecidedClauses = map[string][]string{
 	"C16": {"SyncBank (assumed contract)", "recordPegnetRequests beyond the stated bound"},
 	"C17": {"replaying recorded history reproduces the balances (whole history)", "paging exactly-once beyond the stated bound (SQL LIMIT/OFFSET)"},
 	"C18": {"interleavings and data races as such (argument: empty frame on shared memory)", "the unsynchronised read of Sync.Synced", "SQLite isolation between pool connections and the block transaction", "the closure returned by getTransactions"},
-	"C19": {"NewPegnetd glue"},
+	"C19": {"pegnet.New / Init (opening the database file, migrations) are assumed not to touch ledger content"},
 	"C20": {"acceptance of exactly the canonical JSON language and the encode/decode round trip (encoding/json, jsonlen)"},
 }
 
